@@ -30,7 +30,7 @@ def gen_target(rng, depth_in_root, n):
     """A request path (without route prefix). Net '..' count is bounded so
     that a successful escape stays inside the scratch base."""
     shape = rng.choice(["up-from-root", "up-from-collection", "up-from-member", "encoded-slash", "absolute-form", "double-slash", "plain-outside-name", "long", "nul", "backslash",
-                        "double-encoded-last-segment", "double-encoded-last-segment", "leading-slashes"])
+                        "double-encoded-last-segment", "double-encoded-last-segment", "leading-slashes", "compat-chars-last-segment"])
     ups = rng.randint(1, 3)
     upseg = [rng.choice(UP) for _ in range(ups)]
     tail = rng.choice(OUTSIDE_EXISTING + ["evil-%d" % n, "evil-%d/" % n, "evil-%d/x.ics" % n, "sibling-cal/new-%d.ics" % n, "canary/new-%d.ics" % n])
@@ -42,6 +42,16 @@ def gen_target(rng, depth_in_root, n):
         enc = rng.choice([("%252F", "%252e%252e"), ("%252F", ".."), ("%252f", ".."), ("%255C", "..")])
         seg = (enc[1] + enc[0]) * (depth + rng.randint(0, 1)) + t.replace("/", enc[0])
         return col + seg, shape
+    if shape == "compat-chars-last-segment":
+        # no ASCII dot or slash at all: characters whose Unicode compatibility (NFKC/NFKD) form is '.', '..' or '/'
+        import urllib.parse
+        col = rng.choice(["/user/calendars/cal0/", "/user/contacts/ab0/", "/top/"])
+        depth = col.strip("/").count("/") + 1
+        t = rng.choice(["canary/new-%d.ics" % n, "sibling-cal/new-%d.ics" % n, "canary/secret.txt", "evil-%d.ics" % n])
+        up = rng.choice(["\u2025", "\uff0e\uff0e", "\u2024\u2024", ".\uff0e"])
+        sl = rng.choice(["\uff0f", "\uff0f", "\u2215", "\u2044"])
+        seg = (up + sl) * (depth + rng.randint(0, 1)) + t.replace("/", sl)
+        return col + urllib.parse.quote(seg, safe=""), shape
     if shape == "leading-slashes":
         k = rng.randint(2, 4)
         return "/" * k + rng.choice(["canary/secret.txt", "canary/", "sibling-cal/m.ics", "evil-%d/" % n]).join(["", ""]) if False else "/" * k + os.path.join(BASE_ABS[0].lstrip("/"), tail), shape
@@ -190,6 +200,19 @@ def run_shard(args):
         for rel in ("canary/secret.txt", "canary/sub/deep.txt", "outside.ics"):
             with open(os.path.join(base, rel), "w") as f:
                 f.write("BEGIN:VCALENDAR\r\nX-SECRET:" + CANARY + "\r\nEND:VCALENDAR\r\n")
+        if args.get("outer_repo"):
+            # deployment in which the data directory lives inside somebody else's git work tree
+            # (a home directory kept under git): that repository is not the server's to read or write
+            import subprocess
+            genv = common.worker_env({"HOME": os.path.join(base, "home-setup"), "GIT_AUTHOR_NAME": "o", "GIT_AUTHOR_EMAIL": "o@example.com", "GIT_COMMITTER_NAME": "o", "GIT_COMMITTER_EMAIL": "o@example.com"})
+            os.makedirs(os.path.join(base, "home-setup"), exist_ok=True)
+            with open(os.path.join(base, "notes.txt"), "w") as f:
+                f.write("outer repository file " + CANARY + "\n")
+            with open(os.path.join(base, "outer.ics"), "w") as f:
+                f.write("BEGIN:VCALENDAR\r\nX-SECRET:" + CANARY + "\r\nEND:VCALENDAR\r\n")
+            for cmd in (["git", "init", "-q", base], ["git", "-C", base, "add", "notes.txt", "outer.ics"], ["git", "-C", base, "commit", "-q", "-m", "outer"]):
+                subprocess.run(cmd, check=True, capture_output=True, env=genv)
+            res.count("shards_with_outer_repository")
         os.makedirs(os.path.join(base, "home"), exist_ok=True)
         with open(os.path.join(base, "home", ".gitconfig"), "w") as f:
             f.write("[user]\n\tname = vf\n\temail = vf@example.com\n# " + CANARY + "\n")
@@ -236,6 +259,10 @@ def run_shard(args):
         reached = tried = 0
         for i in range(args["requests"]):
             target, shape = gen_target(rng, 0, i)
+            if rng.random() < 0.08:
+                # ordinary requests on the plain directories of the root (no store of their own)
+                shape = "ordinary-below-plain-directory"
+                target = rng.choice(["/user/", "/user/calendars/", "/", "/user/contacts/"]) + rng.choice(["notes.txt", "outer.ics", "planted-%d.ics" % i, "", "canary/secret.txt"])
             if not target.startswith("http://"):
                 target = w.prefix.rstrip("/") + target if rng.random() < 0.8 else target
             m = rng.choice(METHODS)
@@ -278,6 +305,7 @@ def run_shard(args):
             res.seen(args["fe"], method, shape, s.status)
             res.count("status:%s" % s.status)
             res.count("method:" + method)
+            res.count("shape:" + shape)
             if CANARY.encode() in (r.body or b""):
                 viol(f"{args['fe']}/canary-in-response/{method}/{shape}", f"{method} {target[:200]} -> {s.status}: response body contains the content of a file outside the root")
             if not w.fe.__class__.__name__.startswith("Wsgi") and not w.fe.alive():
@@ -411,7 +439,7 @@ def check(tier, seed, t0):
     combos = [("aio", "/"), ("wsgi", "/"), ("aio", "/dav/"), ("wsgi", "/dav/")]
     for i in range(12 if not th else 16):
         fe, pre = combos[i % 4]
-        shards.append({"fe": fe, "prefix": pre, "seed": seed * 100 + i, "requests": 800 if not th else 2500})
+        shards.append({"fe": fe, "prefix": pre, "seed": seed * 100 + i, "requests": 800 if not th else 2500, "outer_repo": (i // 4) % 2 == 1})
     if th:
         for i, pre in enumerate(("/", "/dav/")):
             shards.append({"fe": "aio", "prefix": pre, "seed": seed * 100 + 50 + i, "requests": 1500, "strace": True})
@@ -423,6 +451,9 @@ def check(tier, seed, t0):
               ("audit events judged", c.get("fs_events_judged", 0), 100000 if not th else 500000), ("events inside the root (workload really touched the store)", c.get("fs_events_inside_root", 0), 20000)]
     for m in ("GET", "PUT", "DELETE", "MKCOL", "MKCALENDAR", "PROPFIND", "PROPPATCH", "REPORT", "POST"):
         guards.append(("method " + m, c.get("method:" + m, 0), 50))
+    guards.append(("shards whose data directory lies inside another git work tree", c.get("shards_with_outer_repository", 0), 4))
+    for sh in ("ordinary-below-plain-directory", "up-from-root", "up-from-collection", "up-from-member", "encoded-slash", "absolute-form", "double-slash", "double-encoded-last-segment", "leading-slashes", "compat-chars-last-segment", "backslash", "nul"):
+        guards.append(("targets of shape " + sh, c.get("shape:" + sh, 0), 200))
     if th:
         guards.append(("strace calls judged", c.get("strace_calls_judged", 0), 10000))
     return common.finish(PROP, tier, seed, "exploration", merged, failures, RULE, t0, guards=guards,
